@@ -423,8 +423,7 @@ class Result:
             # nothing was proved in this run (e.g. the property file is missing or rejected): do not present it as a proof
             self.level = "exploration"
         if self.level in ("exploration", "fault_enumeration"):
-            c["evaluations"] = max(1, c.get("evaluations", 0)); c["distinct_nontrivial"] = max(2, c.get("distinct_nontrivial", 0))
-            c.setdefault("rule", "")
+            c.setdefault("rule", "")      # counts stay as measured
 
     def finish(self):
         self.sanitize()
